@@ -372,8 +372,13 @@ inductive Outcome where
   | stop (why : Stop)
 deriving Repr, Inhabited
 
+/-- what `Solver::solve` returns when it returns normally -/
+inductive Answer where
+  | ok (solution : List Nat)
+  | unsat (conflict : List Nat)
+
 /-- `Solver::solve`: resets the per-solve state, keeps the cache -/
-def solve (U : Universe) (P : Problem) (fuel : Nat) : M Outcome := do
+def solve (U : Universe) (P : Problem) (fuel : Nat) : M Answer := do
   modify fun s => { (default : S) with
     fetchedCands := s.fetchedCands, fetchedDeps := s.fetchedDeps, hinted := s.hinted, cachedSorted := s.cachedSorted,
     log := s.log, glog := s.glog, polls := s.polls, cancelAt := s.cancelAt, cancelAtCall := s.cancelAtCall, cancelTransient := s.cancelTransient,
@@ -400,7 +405,8 @@ def solve (U : Universe) (P : Problem) (fuel : Nat) : M Outcome := do
 /-- Runs one solve on a solver state; abnormal stops become an outcome, the state is kept. -/
 def solveRun (U : Universe) (P : Problem) (fuel : Nat) (s : S) : Outcome × S :=
   match (solve U P fuel).run.run s with
-  | (.ok o, s') => (o, s')
+  | (.ok (.ok sol), s') => (.ok sol, s')
+  | (.ok (.unsat c), s') => (.unsat c, s')
   | (.error e, s') => (.stop e, s')
 
 end Resolvo.MDet
